@@ -48,7 +48,7 @@ END = object()
 def cases(tier, seed):
     n = 60000 if tier == "quick" else 6000000
     for k in range(n):
-        yield {"gen": ("align" if k % 3 == 2 else "walk"), "k": k}
+        yield {"gen": ("msprime" if k % 40 == 7 else "align" if k % 3 == 2 else "walk"), "k": k}
 
 
 # ------------------------------------------------------------------------------------ reference
@@ -161,8 +161,30 @@ REF_ALPHABET = "acgtnxyz"
 MANY_ALLELES = list("ACGTRYKMSWBDHVXZ")
 
 
+def build_msprime(rng):
+    """Coalescent with recombination + finite-sites mutations (recurrent/back mutations, correct parents)."""
+    import msprime
+
+    from lib.tsk import from_tables
+
+    L = rng.choice([10, 20, 50])
+    ts = msprime.sim_ancestry(samples=rng.randint(2, 6), ploidy=rng.choice([1, 2]), sequence_length=L,
+                              recombination_rate=rng.choice([0.0, 0.05, 0.2]), random_seed=rng.randint(1, 2 ** 31))
+    model = rng.choice([msprime.JC69(), msprime.BinaryMutationModel(), msprime.HKY(kappa=2.0)])
+    ts = msprime.sim_mutations(ts, rate=rng.choice([0.01, 0.05, 0.2]), model=model,
+                               random_seed=rng.randint(1, 2 ** 31))
+    m = from_tables(ts.dump_tables())
+    m.provenances = []
+    m.schemas = {}
+    m.metadata_schema = ""
+    m.tags.add("mutation-times")
+    return m
+
+
 def build(case):
     rng = case_rng(case)
+    if case["gen"] == "msprime":
+        return rng, build_msprime(rng)
     if case["gen"] == "align":
         L = rng.choice([2.0, 4.0, 8.0, 10.0, 16.0])
         m = gen.gen_topology(rng, n=rng.randint(2, 9), max_bp=4, L=L, discrete=True, gaps=False,
